@@ -68,7 +68,7 @@ CLAIMED = {
 
 
 CLIENT_NOTE = ("Client level: two kinds of Lean models. (1) Deterministic component models (async_sender, replies, publish_send_op, session flags, request validation, timing expressions, "
-               "packet codecs), each tied to the real code by its own lock-step / differential harness or translator. (2) For C01, C03-C09, C13, C14, C17 a composed observer model of the client "
+               "packet codecs), each tied to the real code by its own lock-step / differential harness or translator. (2) For C01-C09, C13, C14, C17 a composed observer model of the client "
                "above the stream (labelled transition systems Model/Trace.lean, TraceIn.lean, TraceContent.lean; DESIGN.md S.8) whose every accepted event list satisfies the end-to-end statement "
                "(theorems in the Props file, section ComposedModel); it over-approximates the client, says nothing about time, liveness or Asio posting order, and is tied to the real mqtt_client "
                "by trace inclusion on the transcripts the H-client scenario generator produces (observed, not proved). The property's Python monitor runs on the same transcripts and is the violation search. ")
